@@ -1,1 +1,141 @@
-pub fn placeholder() {}
+//! C15 — AsyncReader is cancellation-safe: no frame lost, duplicated or torn.
+//! ONE inductive step: from an arbitrary reader state satisfying the representation invariant
+//! Inv (built through the cfg(minicbor_verif) hook), one `read()` future is created, polled once
+//! and dropped.  Inv: the state accounts for exactly the bytes taken from the source —
+//!   ReadLen(b, o): o <= 4, b[..o] == the first o prefix bytes of the current frame, source at o;
+//!   ReadVal(o):    buffer.len() == declared length, buffer[..o] == first o payload bytes, source at 4+o.
+//! Post: a returned value is the frame's value with the source exactly behind the frame and a
+//! fresh state; on Pending / transient error Inv holds again (nothing lost, duplicated, torn);
+//! EOF inside the frame is UnexpectedEof, never a value; clean end only at a frame boundary.
+use crate::models::*;
+use futures_io::AsyncRead;
+use minicbor_io::{AsyncReader, Error};
+use std::future::Future;
+use std::io;
+use std::pin::{pin, Pin};
+use std::task::{Context, Poll};
+
+const S: usize = 8;
+
+pub struct ASrc { pub data: [u8; S], pub end: usize, pub pos: usize, pub completed: u8, pub saw_err: bool, pub saw_eof: bool, pub saw_pending: bool }
+
+impl AsyncRead for ASrc {
+    fn poll_read(mut self: Pin<&mut Self>, _cx: &mut Context<'_>, buf: &mut [u8]) -> Poll<io::Result<usize>> {
+        let c: u8 = kani::any();
+        if self.completed >= 2 || c == 0 { self.saw_pending = true; return Poll::Pending }
+        if c == 1 { self.saw_err = true; return Poll::Ready(Err(io::ErrorKind::ConnectionReset.into())) }
+        let rem = self.end - self.pos;
+        if rem == 0 { self.saw_eof = true; return Poll::Ready(Ok(0)) }
+        let mut k: usize = if c == 2 { 1 } else { 4 };
+        if k > rem { k = rem }
+        if k > buf.len() { k = buf.len() }
+        let base = self.pos;
+        let mut i = 0;
+        while i < 4 { if i < k { buf[i] = self.data[base + i]; } i += 1; }
+        self.pos += k;
+        self.completed += 1;
+        Poll::Ready(Ok(k))
+    }
+}
+
+/// The representation invariant for the frame `00 00 00 02 18 x` at stream offset 0.
+fn inv(read_val: bool, lenb: &[u8; 4], o: usize, buffer: &[u8], data: &[u8; S], srcpos: usize) -> bool {
+    if !read_val {
+        if o > 4 || srcpos != o { return false }
+        let mut i = 0;
+        while i < 4 { if i < o && lenb[i] != data[i] { return false } i += 1; }
+        true
+    } else {
+        if buffer.len() != 2 || o > 2 || srcpos != 4 + o { return false }
+        let mut i = 0;
+        while i < 2 { if i < o && buffer[i] != data[4 + i] { return false } i += 1; }
+        true
+    }
+}
+
+#[kani::proof]
+#[kani::unwind(8)]
+#[kani::stub(std::vec::Vec::resize, crate::models::vec_resize)]
+pub fn c15_read_one_poll_from_any_inv_state() {
+    let x: u8 = kani::any();
+    let data: [u8; S] = [0, 0, 0, 2, 0x18, x, 0, 0];
+    // arbitrary pre-state satisfying Inv
+    let read_val: bool = kani::any();
+    let o: usize = kani::any();
+    let junk: [u8; 4] = kani::any();
+    let mut lenb = [0u8; 4];
+    let mut buffer: Vec<u8> = Vec::with_capacity(4);
+    let srcpos;
+    if !read_val {
+        kani::assume(o <= 4);
+        let mut i = 0;
+        while i < 4 { lenb[i] = if i < o { data[i] } else { junk[i] }; i += 1; }
+        srcpos = o;
+        // the buffer still holds whatever the previous frame left there
+        let bl: usize = kani::any();
+        kani::assume(bl <= 2);
+        let mut i = 0;
+        while i < 2 { if i < bl { buffer.push(junk[i]); } i += 1; }
+    } else {
+        kani::assume(o <= 2);
+        let mut i = 0;
+        while i < 2 { buffer.push(if i < o { data[4 + i] } else { junk[i] }); i += 1; }
+        srcpos = 4 + o;
+    }
+    let end: usize = kani::any();
+    kani::assume(end >= srcpos && end <= 6);
+    let src = ASrc { data, end, pos: srcpos, completed: 0, saw_err: false, saw_eof: false, saw_pending: false };
+    let mut r = AsyncReader::__verif_from_parts(src, buffer, 4, read_val, lenb, o);
+    let waker = noop_waker();
+    let mut cx = Context::from_waker(&waker);
+    let res: Poll<Result<Option<u8>, Error>> = {
+        let fut = pin!(r.read::<u8>());
+        fut.poll(&mut cx)
+        // dropped here: cancellation
+    };
+    let (post_rv, post_lenb, post_o) = r.__verif_state();
+    let spos = r.reader().pos;
+    match &res {
+        Poll::Ready(Ok(Some(v))) => {
+            assert!(*v == x, "returned value is not the frame's value (torn / duplicated bytes)");
+            assert!(spos == 6, "source not exactly behind the frame after a value was returned");
+            assert!(!post_rv && post_o == 0, "state not reset to a fresh ReadLen after a frame");
+        }
+        Poll::Ready(Ok(None)) => {
+            assert!(!read_val && o == 0 && srcpos == end, "clean end reported inside a frame or before the stream ended");
+            assert!(spos == srcpos);
+        }
+        Poll::Ready(Err(Error::Io(e))) => {
+            if r.reader().saw_err {
+                assert!(e.kind() == io::ErrorKind::ConnectionReset);
+                assert!(inv(post_rv, &post_lenb, post_o, r.__verif_buffer(), &data, spos), "Inv broken after a transient error: reading cannot resume where it left off");
+            } else {
+                assert!(r.reader().saw_eof && e.kind() == io::ErrorKind::UnexpectedEof, "an i/o error the source never produced");
+                assert!(spos == end && end < 6 && end > 0, "unexpected-eof although the frame was complete or the stream empty");
+            }
+        }
+        Poll::Ready(Err(_)) => assert!(false, "decode / length error on a valid frame"),
+        Poll::Pending => {
+            assert!(r.reader().saw_pending);
+            assert!(inv(post_rv, &post_lenb, post_o, r.__verif_buffer(), &data, spos), "Inv broken after Pending + drop: bytes lost, duplicated or torn");
+        }
+    }
+    // a transient error is reported exactly when the source produced one
+    if r.reader().saw_err { assert!(matches!(res, Poll::Ready(Err(Error::Io(_))))) }
+    kani::cover!(matches!(res, Poll::Ready(Ok(Some(_)))) && !read_val && o == 2, "frame completed from a half-read prefix");
+    kani::cover!(matches!(res, Poll::Pending) && post_rv && post_o == 1, "Pending in the middle of the payload");
+    kani::cover!(matches!(res, Poll::Ready(Ok(None))));
+    kani::cover!(matches!(res, Poll::Ready(Err(_))) && r.reader().saw_eof);
+    core::mem::forget(r);
+}
+
+/// Base case: a new reader satisfies Inv at a frame boundary.
+#[kani::proof]
+pub fn c15_new_reader_satisfies_inv() {
+    let data = [0u8; S];
+    let src = ASrc { data, end: 0, pos: 0, completed: 0, saw_err: false, saw_eof: false, saw_pending: false };
+    let r = AsyncReader::new(src);
+    let (rv, lenb, o) = r.__verif_state();
+    assert!(inv(rv, &lenb, o, r.__verif_buffer(), &data, 0));
+    assert!(!rv && o == 0);
+}
